@@ -23,6 +23,12 @@ Proof.
   apply (repeat_spec m false). apply nth_In. rewrite repeat_length. lia.
 Qed.
 
+Lemma nth_error_repeat_true : forall n j, j < n -> nth_error (repeat true n) j = Some true.
+Proof.
+  intros n j H. rewrite (nth_error_nth' _ false) by (rewrite repeat_length; lia). f_equal.
+  apply (repeat_spec n true). apply nth_In. rewrite repeat_length. lia.
+Qed.
+
 Lemma set_nth_tf : forall i m,
   set_nth (repeat true i ++ repeat false (S m)) i true = repeat true (S i) ++ repeat false m.
 Proof.
@@ -45,7 +51,7 @@ Lemma path1_wf : forall N, 2 <= N -> wf_graph N (path1 N) /\ (forall row, In row
 Proof.
   intros N HN. split; [split|].
   - unfold path1. rewrite map_length, seq_length. reflexivity.
-  - intros row x Hr Hx. unfold path1 in Hr. apply in_map_iff in Hr. destruct Hr as [i [<- Hi]].
+  - intros row Hr x Hx. unfold path1 in Hr. apply in_map_iff in Hr. destruct Hr as [i [<- Hi]].
     apply in_seq in Hi. destruct Hx as [<-|[]]. destruct (S i <? N) eqn:E.
     + apply Nat.ltb_lt in E. exact E.
     + lia.
@@ -68,14 +74,11 @@ Proof.
     rewrite nth_error_tf_false by lia.
     rewrite (path1_row N (N - 1)) by lia.
     replace (S (N - 1) <? N) with false by (symmetry; apply Nat.ltb_ge; lia).
-    rewrite set_nth_tf. cbn [repeat app].
-    rewrite app_nil_r.
-    replace (N - 1 - 1) with (N - 2) by lia.
-    replace (nth_error (repeat true (S (N - 1))) (N - 2)) with (Some true).
-    2:{ symmetry. rewrite (nth_error_nth' _ false) by (rewrite repeat_length; lia). f_equal.
-        apply (repeat_spec (S (N - 1)) true). apply nth_In. rewrite repeat_length. lia. }
+    rewrite set_nth_tf. change (repeat false 0) with (@nil bool). rewrite app_nil_r.
     replace (S (N - 1)) with N by lia.
-    f_equal. f_equal; [f_equal; lia|lia].
+    replace (N - 1 - 1) with (N - 2) by lia.
+    rewrite nth_error_repeat_true by lia.
+    replace (nv + 0 + 1) with (S nv) by lia. replace (d + 0) with d by lia. reflexivity.
   - destruct fuel as [|fuel]; [lia|].
     assert (HiN : S i < N) by lia.
     replace (N - i) with (S (N - S i)) by lia.
@@ -86,7 +89,8 @@ Proof.
     rewrite set_nth_tf.
     rewrite nth_error_tf_false by lia.
     rewrite (IH (S i)) by lia.
-    f_equal. f_equal; [f_equal; lia|lia].
+    replace (S nv + m + 1) with (nv + S m + 1) by lia.
+    replace (Nat.max (Nat.max hw d) (S d + m)) with (Nat.max hw (d + S m)) by lia. reflexivity.
 Qed.
 
 Lemma main_recursive_depth : forall N, 2 <= N ->
@@ -113,3 +117,7 @@ Proof.
   - pose proof (all_reachable_from_first_hw_bound N (path1 N)) as H.
     rewrite (total_len_uniform 1 (path1 N) Hu) in H. destruct Hwf as [Hl _]. rewrite Hl in H. lia.
 Qed.
+
+Lemma nv_recursive : 2 <= 50 /\ all_reachable_from_first_rec 50 (path1 50) = COk (true, 50) /\
+  all_reachable_from_first_hw 50 (path1 50) = (COk true, 1).
+Proof. split; [lia|]. split; vm_compute; reflexivity. Qed.
